@@ -35,7 +35,7 @@ Definition VE := RaiseValueError.
 Inductive wt := WPos | WZero | WNeg | WMissing.
 Record elem := { e_w : wt; e_ign : bool }.            (* weighted element: edge (edge mode) / node (node mode);
                                                          e_ign = it is named by the caller's elements_to_ignore *)
-Inductive ktag := KInt (z : Z) | KNonInt (q : Q) | KBool (b : bool).    (* python int / python float / python bool *)
+Inductive ktag := KInt (z : Z) | KNonInt (q : Q) | KBool (b : bool) | KNone | KStr.    (* python int / float / bool / None / str *)
 Inductive wtype_tag := TInt | TFloat | TOther.
 Inductive origin_tag := OEdge | ONode | OOther.
 Inductive item_kind := IStr | IPair | ITriple | IInt. (* str / 2-tuple / 3-tuple / non-iterable *)
@@ -98,7 +98,8 @@ Definition ign_internal_empty (i : input) : bool :=
 Definition k_pos_int (i : input) := match k i with KInt z => Z.ltb 0 z | _ => false end.
 Definition k_is_true (i : input) := match k i with KBool true => true | _ => false end.
 Definition k_is_int (i : input) := match k i with KInt _ => true | _ => false end.
-Definition k_le0 (i : input) := match k i with KInt z => Z.leb z 0 | KNonInt q => Qle_bool q 0 | KBool b => negb b end.
+Definition k_le0 (i : input) := match k i with KInt z => Z.leb z 0 | KNonInt q => Qle_bool q 0 | KBool b => negb b | _ => false end.
+Definition k_is_none (i : input) := match k i with KNone => true | _ => false end.
 Definition cov_ok (i : input) := negb (Qle_bool (cov i) 0) && Qle_bool (cov i) 1.
 Definition has_covlen (i : input) := match cov_len i with Some _ => true | None => false end.
 Definition covlen_ok (i : input) := match cov_len i with Some l => negb (Qle_bool l 0) && Qle_bool l 1 | None => true end.
@@ -244,6 +245,10 @@ Definition v_walkmodel_k (i : input) (k_bad : bool) : step :=
   check_cons (internal_cons i) ;>
   guard (negb (cov_ok i)) VE ;> None.
 Definition k_bad (i : input) := negb (k_pos_int i).
+(* `isinstance(k, bool) or not isinstance(k, numbers.Integral) or k <= 0`, preceded by `k is not None and` in the classes that
+   document k=None as "use the width" (kMinPathError, kLeastAbsErrorsCycles, kMinPathErrorCycles) *)
+Definition k_bad_gen (none_ok : bool) (i : input) := negb (k_pos_int i) && negb (none_ok && k_is_none i).
+Definition k_dom (none_ok : bool) (i : input) := k_pos_int i || (none_ok && k_is_none i).
 Definition v_walkmodel (i : input) : step := v_walkmodel_k i (k_bad i).
 
 (* the additional starts / ends handed to stDAG / stDiGraph: in node mode they were expanded (and thereby
@@ -263,13 +268,23 @@ Definition kfd_core (i : input) (ign_empty : bool) (kb_own kb_base : bool) : out
   check_cons (internal_cons i) ;;
   v_pathmodel i kb_base ;;
   Accept.
-(* k and the given weights.  kFlowDecomp validates the caller's k itself (`k <= 0 or not isinstance(k, int)`: a bool passes as
-   an int), BEFORE and independently of solution_weights_superset; afterwards `self.k = len(solution_weights_superset)` and the
-   base class validates THAT number.  kLeastAbsErrors / kMinPathError have no check of their own: with given weights the
-   caller's k is overwritten before anything looks at it (OPEN finding). *)
+(* k and the given weights (29f2322).  Every k-model validates the caller's k itself, before and independently of
+   solution_weights_superset: kFlowDecomp after the weight checks, all other k-models as the very first statement.  Afterwards
+   `self.k = len(solution_weights_superset)` (resp. the width for k=None) and the base class validates THAT number, which is fine.
+   OLD BEHAVIOUR (before 29f2322): kFlowDecomp's own test `k <= 0 or not isinstance(k, int)` let a bool through ([k_own_bad]);
+   kLeastAbsErrors / kMinPathError had no test of their own, so with given weights nobody looked at the caller's k. *)
 Definition k_own_bad (i : input) := k_bad i && negb (k_is_true i).
 Definition k_base_bad (i : input) := negb (has_superset i) && k_bad i.
+Definition k_base_bad_gen (none_ok : bool) (i : input) := negb (has_superset i) && k_bad_gen none_ok i.
 Definition validate_kFlowDecomp (i : input) : outcome :=
+  match origin i with
+  | ONode => v_nodeexp i [] [] false ;; expand_cons (cons i) ;;
+             guard (negb (ign_ok_node i)) VE ;; guard (negb (ign_present i)) VE ;;
+             kfd_core i (ign_internal_empty i) (k_bad i) (k_base_bad i)
+  | OEdge => front_edge i ;; kfd_core i (ign_internal_empty i) (k_bad i) (k_base_bad i)
+  | OOther => VE
+  end.
+Definition old_validate_kFlowDecomp (i : input) : outcome :=
   match origin i with
   | ONode => v_nodeexp i [] [] false ;; expand_cons (cons i) ;;
              guard (negb (ign_ok_node i)) VE ;; guard (negb (ign_present i)) VE ;;
@@ -297,17 +312,26 @@ Definition validate_MinFlowDecomp (i : input) : outcome :=
   | OOther => VE
   end.
 
-(* kMinPathError / kLeastAbsErrors (kminpatherror.py:167-301, kleastabserrors.py:142-271): identical order of the
-   checks we model; k is validated by the base class *)
-Definition validate_kErrDAG (i : input) : outcome :=
+(* kMinPathError / kLeastAbsErrors (kminpatherror.py:167-305, kleastabserrors.py:142-275): identical order of the
+   checks we model; k is validated first ([none_ok]: kMinPathError accepts k=None as "the width") *)
+Definition validate_kErrDAG (none_ok : bool) (i : input) : outcome :=
+  guard (k_bad_gen none_ok i) VE ;;
+  front i true ;;
+  v_stdag i (st_of i) (en_of i) ;;
+  guard (negb (wtype_ok i)) VE ;;
+  v_maxflow i ;;
+  v_pathmodel i (k_base_bad_gen none_ok i) ;;
+  Accept.
+Definition validate_kMinPathError := validate_kErrDAG true.
+Definition validate_kLeastAbsErrors := validate_kErrDAG false.
+(* OLD BEHAVIOUR (before 29f2322): no test of their own *)
+Definition old_validate_kErrDAG (i : input) : outcome :=
   front i true ;;
   v_stdag i (st_of i) (en_of i) ;;
   guard (negb (wtype_ok i)) VE ;;
   v_maxflow i ;;
   v_pathmodel i (k_base_bad i) ;;
   Accept.
-Definition validate_kMinPathError := validate_kErrDAG.
-Definition validate_kLeastAbsErrors := validate_kErrDAG.
 
 (* front of MinPathCover / MinPathCoverCycles: constraints, ignore list, then the additional starts/ends *)
 Definition front_cover (i : input) : step :=
@@ -323,6 +347,7 @@ Definition front_cover (i : input) : step :=
 (* kPathCover (kpathcover.py:98-171); node mode: dummy node attribute, NodeExpandedDiGraph, constraints, ignore
    list, then the additional starts/ends — the same order as MinPathCover's constructor *)
 Definition validate_kPathCover (i : input) : outcome :=
+  guard (k_bad i) VE ;;
   front_cover i ;;
   v_stdag i (st_of i) (en_of i) ;;
   v_pathmodel i (k_bad i) ;;
@@ -367,23 +392,25 @@ Definition kfdc_core (i : input) (sts ens : list bool) (ign_empty : bool) (kb : 
   guard (ign_empty && negb (conserving i)) AcceptsButUnsolved ;;     (* exact decomposition of a non-flow is infeasible (OPEN) *)
   Accept.
 Definition validate_kFlowDecompCycles (i : input) : outcome :=
-  front i true ;; kfdc_core i (st_of i) (en_of i) (ign_internal_empty i) (k_bad i).
+  guard (k_bad i) VE ;; front i true ;; kfdc_core i (st_of i) (en_of i) (ign_internal_empty i) (k_bad i).
 
 (* kLeastAbsErrorsCycles (kleastabserrorscycles.py:127-250).  trusted_edges_for_safety_percentile is handed to numpy.percentile
    (ValueError outside [0,100]) when at least one edge carries the attribute.  The elements a percentile ignores / trusts are
    decided by the abstraction: [e_ign] already contains the percentile-ignored edges. *)
 Definition some_weight (i : input) := existsb (fun e => negb (missing_w (e_w e))) (elems i).
 Definition validate_kLeastAbsErrorsCycles (i : input) : outcome :=
+  guard (k_bad_gen true i) VE ;;
   front i true ;;
   v_stdigraph i (st_of i) (en_of i) ;;
   guard (pct_bad (trust_pct i) && some_weight i) VE ;;
   guard (negb (wtype_ok i)) VE ;;
   v_maxflow i ;;
-  v_walkmodel i ;;
+  v_walkmodel_k i (k_bad_gen true i) ;;
   Accept.
 (* kMinPathErrorCycles (kminpatherrorcycles.py:131-277): elements_to_ignore_percentile is range-checked and excludes
    elements_to_ignore; trusted_edges_for_safety_percentile is range-checked after the weights *)
 Definition validate_kMinPathErrorCycles (i : input) : outcome :=
+  guard (k_bad_gen true i) VE ;;
   front i true ;;
   v_stdigraph i (st_of i) (en_of i) ;;
   guard (pct_bad (ign_pct i)) VE ;;
@@ -391,11 +418,12 @@ Definition validate_kMinPathErrorCycles (i : input) : outcome :=
   guard (negb (wtype_ok i)) VE ;;
   v_maxflow i ;;
   guard (pct_bad (trust_pct i)) VE ;;
-  v_walkmodel i ;;
+  v_walkmodel_k i (k_bad_gen true i) ;;
   Accept.
 
 (* kPathCoverCycles (kpathcovercycles.py:83-155) *)
 Definition validate_kPathCoverCycles (i : input) : outcome :=
+  guard (k_bad i) VE ;;
   front i true ;;
   v_stdigraph i (st_of i) (en_of i) ;;
   v_walkmodel i ;;
@@ -461,10 +489,10 @@ Definition in_domain_kFlowDecomp (i : input) :=
 Definition in_domain_MinFlowDecomp (i : input) :=
   origin_ok i && dom_size i && dom_graph_dag i && dom_ign i && dom_weights i && dom_flow i && dom_cons i && dom_covlen i && dom_starts i &&
   match origin i with ONode => true | _ => is_nil (starts i) && is_nil (ends i) end.   (* documented: node mode only *)
-Definition in_domain_kErrDAG (i : input) :=
-  origin_ok i && dom_size i && dom_graph_dag i && dom_ign i && dom_weights i && k_pos_int i && dom_cons i && dom_covlen i && dom_starts i.
-Definition in_domain_kMinPathError := in_domain_kErrDAG.
-Definition in_domain_kLeastAbsErrors := in_domain_kErrDAG.
+Definition in_domain_kErrDAG (none_ok : bool) (i : input) :=
+  origin_ok i && dom_size i && dom_graph_dag i && dom_ign i && dom_weights i && k_dom none_ok i && dom_cons i && dom_covlen i && dom_starts i.
+Definition in_domain_kMinPathError := in_domain_kErrDAG true.
+Definition in_domain_kLeastAbsErrors := in_domain_kErrDAG false.
 Definition in_domain_kPathCover (i : input) :=
   origin_ok i && dom_size i && dom_graph_dag i && dom_ign i && k_pos_int i && dom_cons i && dom_covlen i && dom_starts i.
 Definition in_domain_MinPathCover (i : input) :=
@@ -483,7 +511,7 @@ Definition in_domain_MinFlowDecompCycles (i : input) :=
   match origin i with ONode => true | _ => is_nil (starts i) && is_nil (ends i) end.
 Definition in_domain_kErrCycles (i : input) :=
   origin_ok i && dom_size i && dom_graph_cyc i (starts i) (ends i) && dom_ign i && dom_weights i &&
-  k_pos_int i && dom_cons i && dom_starts i.
+  k_dom true i && dom_cons i && dom_starts i.
 Definition in_domain_kLeastAbsErrorsCycles (i : input) := in_domain_kErrCycles i && negb (pct_bad (trust_pct i)).
 Definition in_domain_kMinPathErrorCycles (i : input) :=
   in_domain_kErrCycles i && negb (pct_bad (trust_pct i)) && negb (pct_bad (ign_pct i)) &&
